@@ -28,6 +28,18 @@ CHECKS.append({
     "note": "AEAD integrity is an explicit hypothesis (Genuine), satisfiable (lookupDec_genuine) and never an axiom; base64 leniency is binascii's (oracle input of checkPsk).",
     "technique": "Lean 4 proof (history invariant for all byte streams under an AEAD-genuineness hypothesis; case analysis of the handlers) + fault-catalogue correspondence",
 })
+CHECKS.append({
+    "property_id": "C13",
+    "text": "The model IS the generated tables (Esp/Gen, rewritten from /repo on every run by harness/translate.py: api.proto text via an own parser, compiled descriptors, registry dicts/tuples via reflection, per-entry-point traffic via an API-surface sweep). Lean 4 theorems over them: c13_registry_eq (registry = declared ids, sorted), c13_ids_contiguous, c13_names_unique, c13_positional (for EVERY id in 1..n the positional lookup selects the declared class; lifted from the table facts by lookup_of_range), c13_out_of_range, c13_desc_eq_text (messages, ids, sources, every field, every enum), c13_direction (everything written is client|both, everything subscribed is server|both). A changed table breaks a kernel-checked proof; the check then finds the concrete id / message / entry point on the running modules.",
+    "note": "Trusted: Lean kernel + standard axioms (decide +kernel over the generated tables); translate.py / prototext.py; the API-surface sweep reaches the entry points listed in the evidence (unreached ones are listed too).",
+    "technique": "Lean 4 proof over tables regenerated from the source on every run (translator) + lifting lemmas",
+})
+CHECKS.append({
+    "property_id": "C14",
+    "text": "Table part (translator): c14_enum_numbers (same numbers, no aliases, every model enum paired), c14_enum_names_partial (naming rule, one recorded exception), c14_fields (field-name sets equal for all 68 class/message pairs), c14_designated_floats (pinned list), c14_converter_kinds. Conversion part (hand model Esp.Convert, exact integer arithmetic): roundHalfEven_close / _tie / _exact, c14_fix7_close (presented value within half a unit of the 7th digit for every finite value), c14_fix7_digits, ceilLog10Up_spec, c14_float_special, c14_enum_convert, c14_enum_list, c14_plain_preserves. Tie: Model.from_pb on generated messages of every paired class (boundary ints, unknown enum numbers, unicode, nested/repeated) and ~12k (quick) float32 bit patterns compared with the Lean interpreter field by field (floats bitwise); to_dict/from_dict round trip and an independent exact-rational oracle checked on the implementation.",
+    "note": "Trusted: CPython round()/float() correct rounding and protobuf float32->double widening; pairing lists in harness/pairs.py (every class/enum must be paired or excluded with a reason); uuid fields are generated with exactly [high, low] (protocol contract). to_dict/from_dict round trip is checked on the implementation only (no Lean theorem): partial.",
+    "technique": "Lean 4 proof over translator-generated tables + proofs about an exact-arithmetic conversion model, tied by differential conversion of generated messages",
+})
 
 _claimed = {c["property_id"] for c in CHECKS}
 NOT_APPLICABLE = [
